@@ -28,12 +28,12 @@ pub struct Menu {
 pub fn menu(l: L) -> Menu {
     if l == L::Ru {
         Menu {
-            recs: vec![rec(1, "альфа бета", 5), rec(2, "бета", 9), rec(3, "ал", 7), rec(4, "бета", 9), rec(5, "", 1), rec(6, "бета", 5)],
+            recs: vec![rec(1, "альфа бета", 5), rec(2, "бета", 9), rec(3, "ал", 7), rec(4, "бета", 9), rec(5, "", 1), rec(6, "Бета", 5)],
             queries: ["", " ", "ал", "бета", "бта", "альфабета"].iter().map(|s| s.to_string()).collect(),
         }
     } else {
         Menu {
-            recs: vec![rec(1, "alpha beta", 5), rec(2, "beta", 9), rec(3, "al", 7), rec(4, "beta", 9), rec(5, "", 1), rec(6, "beta", 5)],
+            recs: vec![rec(1, "alpha beta", 5), rec(2, "beta", 9), rec(3, "al", 7), rec(4, "beta", 9), rec(5, "", 1), rec(6, "Beta", 5)],
             queries: ["", " ", "al", "beta", "bta", "alphabeta"].iter().map(|s| s.to_string()).collect(),
         }
     }
